@@ -90,7 +90,11 @@ void Encoder::putPacket(const Packet& packet)
         bytesLeft -= bytesToAdd;
 
         if (isSegmentedFlag == SegmentType::lastSegment)
-            addNewCMPFrame(packet);
+        {
+            // A segment stays alone in its frame: close the frame, the next message opens a new one
+            cmpFrame.resize(std::max(cmpFrame.size() - bytesLeft, minBytesPerMessage), 0);
+            bytesLeft = 0;
+        }
     }
 
 }
@@ -138,7 +142,7 @@ void Encoder::addNewDataHeader(const Packet& packet, uint16_t bytesToAdd, Segmen
 bool Encoder::checkIfSegmented(const Packet& packet)
 {
     bool isSegmented = (!cmpFrames.empty() && bytesLeft < sizeof(MessageHeader) + packet.getPayloadLength());
-    if (isSegmented)
+    if (isSegmented && bytesLeft != maxBytesPerMessage - sizeof(CmpHeader))
     {
         addNewCMPFrame(packet);
         isSegmented = (!cmpFrames.empty() && bytesLeft < sizeof(MessageHeader) + packet.getPayloadLength());
